@@ -179,6 +179,9 @@ def shapes(tier):
     out = []
     fracs = [None] + [(c, k) for c in ".," for k in range(1, 10)]
     if tier == "thorough":
+        # the full product of groups; fraction lengths 1, 2, 3, 6, 7, 9 with '.', and 1, 7 with ',' (the separator and the length
+        # are handled by independent code: each length with one separator, each separator with a short and a long fraction)
+        fracs = [None] + [(".", k) for k in (1, 2, 3, 6, 7, 9)] + [(",", 1), (",", 7)]
         for df in DATE_FORMS:
             if df != "none":
                 out.append((df, None, None, None, ""))
